@@ -3,6 +3,7 @@ package props
 import (
 	"fmt"
 	"runtime"
+	"strings"
 	"sync"
 	"sync/atomic"
 
@@ -447,6 +448,18 @@ func C12(r *vf.Run) {
 							}
 							w.cells["stp:other-methods-called-while-stopped"]++
 						}
+						if want && i%3 == 2 && g.Intn(2) == 0 {
+							// a request stored straight into the public Interrupt field (NMI is 2, IRQ 3; there is
+							// no TriggerNMI method): being delivered an interrupt is no reset either
+							kind := []byte{2, 3, 2, 1}[g.Intn(4)]
+							if side == "cpu65c816" {
+								w.rig.prim.Interrupt = kind
+							} else {
+								w.rig.alt.Interrupt = kind
+							}
+							called = append(called, fmt.Sprintf("Interrupt=%d", kind))
+							w.cells[fmt.Sprintf("stp:interrupt-field-%d-while-stopped", kind)]++
+						}
 					}
 					if side == "cpu65c816" {
 						w.rig.bm.M = mp
@@ -463,7 +476,7 @@ func C12(r *vf.Run) {
 					}
 					irq := false
 					for _, n := range called {
-						irq = irq || n == "TriggerIRQ" // (the first Step then enters a handler whose code is arbitrary)
+						irq = irq || n == "TriggerIRQ" || strings.HasPrefix(n, "Interrupt=") // (the first Step then enters a handler whose code is arbitrary)
 					}
 					if res := step(); res.pan == nil && res.stopped && !irq {
 						r.Fail("stopped-after-reset:"+side, side+": first Step after Reset (a NOP) still reports stopped", nil)
